@@ -263,3 +263,6 @@ func main() {
 		}
 	}
 }
+
+// StaticWriteInfo describes the first library write to static memory (engine only).
+func StaticWriteInfo(k int) string { return "" }
